@@ -317,6 +317,10 @@ def run_case(case, rec):
                 rec.check("filter.nucleic-acid-entities-kept", key(full) == key(only), lambda: {"case": desc, "entity_poly.type": etype, "residues": [len(full.residues), len(only.residues)]})
             except Exception as e:
                 rec.violation("read.no-crash", {"case": desc, "info": repr(e)[:300], "option": "nucleic_acid_only"}, mechanism=f"crash:{type(e).__name__}")
+        tv = (case["i"] // 3) % 5 if case["i"] % 3 == 0 else 0
+        if tv:
+            text = emit.text_variant(text, tv, fmt)
+            desc["text-variant"] = {1: "CRLF", 2: "trailing-blanks-stripped", 3: "no-final-newline", 4: "tabs-between-values"}[tv]
         models = sorted({r["model"] for r in rows})
         reqs = [None] + models + [models[-1] + 7]
         rec.mark_nontrivial(len(rows) >= 2)
